@@ -10,10 +10,19 @@ import (
 )
 
 //verif:stub time.After vAfter
+//verif:stub time.NewTimer vNewTimer
+//verif:stub (*time.Timer).Stop zzverifstubs.StdTimerStop
+//verif:stub (*time.Timer).Reset zzverifstubs.StdTimerReset
 
 var vClk *zzverifstubs.Clock
 
 func vAfter(d time.Duration) <-chan time.Time { return vClk.After(d) }
+
+// time.NewTimer on the harness clock too (an implementation may use either form)
+func vNewTimer(d time.Duration) *time.Timer {
+	zzverifstubs.StdClock = vClk
+	return zzverifstubs.StdNewTimer(d)
+}
 
 // lock.Context: exclusion between holders; a waiter whose context ends gets the error and holds nothing
 //
@@ -80,6 +89,12 @@ func VerifOuterCancel() {
 	go o.Run(runCtx)
 	rctx, rcancel, err := o.RLock(context.Background())
 	zzverif.Assert(err == nil, "reader_admitted")
+	// the reader may have held its lock for any time - also longer than the grace period - before a writer shows up:
+	// the grace period runs from the writer's arrival
+	held := []time.Duration{0, grace / 2, grace, 3 * grace}[zzverif.Choose("reader_held_before_writer", 4)]
+	vClk.Advance(held)
+	zzverif.WaitQuiescent()
+	zzverif.Assert(rctx.Err() == nil, "reader_not_cancelled_without_a_writer")
 	var writerIn, writerOut, reader2In bool
 	wdone := make(chan struct{}, 1)
 	wrelease := make(chan struct{})
